@@ -79,6 +79,22 @@ def triage(c, ops_file, impl_file, model_file, hbin, exe, budget_s):
             if len(slim) < len(case) and c._fails(slim, hbin, exe, None):
                 case = slim
             shrunk = c.shrink(case, hbin, exe, None, budget=120)
+            # ddmin stops at 1-minimal cases; matching stage/release (or stage/cleanup) pairs only go away together
+            tries = 0
+            improved = True
+            while improved and len(shrunk) > 6 and tries < 150:
+                improved = False
+                for i in range(1, len(shrunk) - 1):
+                    for j in range(i + 1, len(shrunk) - 1):
+                        cand = shrunk[:i] + shrunk[i + 1:j] + shrunk[j + 1:]
+                        tries += 1
+                        if c._fails(cand, hbin, exe, None):
+                            shrunk, improved = cand, True
+                            break
+                        if tries >= 150:
+                            break
+                    if improved or tries >= 150:
+                        break
             isprop, det = c.classify_case(shrunk, hbin, exe, None)
             c.problems.append(Problem("property" if isprop else "correspondence",
                                       "property oracle fails on the implementation" if isprop else "model and implementation disagree",
